@@ -31,3 +31,15 @@ add("C10", "exploration",
     SIM_NOTE,
     "deterministic simulation: history check generate -> format -> generate on one disk, line-sequence frame condition",
     "DESIGN.md section 4, C10")
+
+add("C11", "exploration",
+    "History generate -> update over a simulated disk whose rules file is rendered from a structure that knows every operand's byte span; after update the file must equal the original with exactly the target span replaced by generate's output and every other file's snapshot must be unchanged. Each step runs under its own iteration / directory-order schedule.",
+    SIM_NOTE,
+    "deterministic simulation: byte-level frame condition on the whole simulated disk around one update, reference span model",
+    "DESIGN.md section 4, C11")
+
+add("C12", "exploration",
+    "Histories update->compare, update->update and update->edit-one-byte->compare (text and GitHub output, single rule and --all) over one simulated disk; the verdicts and the stored bytes are checked against the structure-derived span, not against the implementation's own line pattern.",
+    SIM_NOTE,
+    "deterministic simulation: multi-step operation histories over a simulated disk with an injected one-byte corruption of durable state",
+    "DESIGN.md section 4, C12")
